@@ -425,7 +425,7 @@ pub fn run(ctx: &Ctx) -> i32 {
         property: "C16",
         tier,
         seed: ctx.seed,
-        scenarios: tier.pick(64, 2_000),
+        scenarios: tier.pick(640, 20_000),
         threads: super::threads(),
         watchdog: Duration::from_secs(300),
         budget: Duration::from_secs(tier.pick(90, 900)),
